@@ -823,6 +823,30 @@ pub fn c07(tier: Tier) -> i32 {
             }
         }
     }
+    // functions of the SAME name with different protection: overloads in one contract, the same signature in two contracts of
+    // the file, a modifier of the same name as a function; each in both orders (a verdict remembered per name leaks)
+    {
+        let forms: [(&str, &str); 6] = [
+            ("open", "function kill ( ) external { selfdestruct ( payable ( msg . sender ) ) ; }"),
+            ("only", "function kill ( ) external onlyOwner { selfdestruct ( payable ( msg . sender ) ) ; }"),
+            ("checked", "function kill ( ) external { require ( msg . sender == owner ) ; selfdestruct ( payable ( owner ) ) ; }"),
+            ("open-overload", "function kill ( uint256 a ) public { selfdestruct ( payable ( address ( 0 ) ) ) ; }"),
+            ("only-overload", "function kill ( uint256 a ) public onlyOwner { suicide ( payable ( address ( 0 ) ) ) ; }"),
+            ("internal", "function kill ( bool b ) internal { selfdestruct ( payable ( address ( 0 ) ) ) ; }"),
+        ];
+        for (an, a) in &forms {
+            for (bn, b) in &forms {
+                if an == bn {
+                    continue;
+                }
+                let same_sig = a.split('{').next() == b.split('{').next() || (a.starts_with("function kill ( )") && b.starts_with("function kill ( )"));
+                if !same_sig {
+                    items.push(l1_item(format!("sd:same-name:one-contract:{}:{}", an, bn), &toks_of(&format!("pragma solidity 0.8.19 ; contract C {{ address owner ; {} {} }}", a, b))));
+                }
+                items.push(l1_item(format!("sd:same-name:two-contracts:{}:{}", an, bn), &toks_of(&format!("pragma solidity 0.8.19 ; contract C {{ address owner ; {} }} contract D {{ address owner ; {} }}", a, b))));
+            }
+        }
+    }
     let sw2 = refdet::sweep_texts(&items, &sd, Mode::Semantic);
     require_must(&mut run, &sw2, &["unprotected_selfdestruct"], "selfdestruct-matrix");
     let sample_sd = json!({"label": items[items.len() / 2].0, "text": items[items.len() / 2].1});
